@@ -1217,6 +1217,7 @@ fn kind_of_item(name: &str) -> &'static str {
 }
 
 #[derive(Clone, Debug)]
+#[allow(dead_code)]
 enum Expect {
     Accept(BTreeSet<String>),
     /// must end with a diagnostic: (class, features, what, judged on the language server too)
